@@ -144,7 +144,7 @@ reg("C15", exc_ops=ALL_OPS, nontrivial=nt_long, hook="pair",
     roles=[("file", ()), ("memory", ())], pairname="C15.pair", prefixes=["C15."], prehook=hooks.prehook_mmap,
     weights={"Reopen": 0, "Clear": 3, "Recreate": 3, "AddRule": 6},
     profile={"raw": 0.3, "long": 0.7, "nlrus": 10}, n=(40, 500), steps=(12, 20), title="Memory == file")
-reg("C19", exc_ops=set(), nontrivial=nt_long, hook="metrics",
+reg("C19", exc_ops=set(), nontrivial=nt_long, hook="metrics", prefixes=["C19.", "C02.inv.refonce", "C02.inv.blockshape"],
     profile={"long": 0.9, "raw": 0.3}, title="Storage accounting")
 
 
